@@ -19,11 +19,16 @@ COUNTERS = {"transitions": 0, "observations": 0}
 
 
 # ------------------------------------------------------------------ binarizers (module level: picklable)
+BIN_CALLS = [0]          # number of binarizer invocations (the harness's binarizers count themselves)
+
+
 def bin_ge2(arm, reward):
+    BIN_CALLS[0] += 1
     return reward >= 2
 
 
 def bin_le0(arm, reward):
+    BIN_CALLS[0] += 1
     return reward <= 0
 
 
@@ -31,14 +36,17 @@ _THRESH = {1: 1, 2: 2, 3: 5, "a": 1, "b": 2, "c": 5, 1.0: 1, 2.0: 2, 3.0: 5}
 
 
 def bin_arm_threshold(arm, reward):
+    BIN_CALLS[0] += 1
     return reward >= _THRESH.get(arm, 2)
 
 
 def bin_ge1(arm, reward):
+    BIN_CALLS[0] += 1
     return reward >= 1
 
 
 def bin_ge5(arm, reward):
+    BIN_CALLS[0] += 1
     return reward >= 5
 
 
